@@ -7,7 +7,7 @@ rewritten after T").  Generator + runner + direct oracle (ledger + per-connectio
 import os
 from base64 import encodebytes
 
-from c13_lib import Env, p64, u64, errname, copy_to_fresh
+from c13_lib import Env, p64, u64, errname, copy_to_fresh, FinishBoom
 from c13_st import gen_data, decode_data
 
 SLOTS = ['b0', 'b1', 'b2']
@@ -134,7 +134,11 @@ def gen_case(rng, flavor=None, size=None):
             ops.append(['abort'])
             end_txn(False)
         elif r < 0.89:
-            ops.append(['failcommit', rng.choice(['begin', 'commit', 'commit', 'vote', 'vote']), rng.choice([0, 0, 1])])
+            if flavor == 'wrap' and rng.random() < 0.3:
+                ops.append(['failfinish'])              # the wrapped storage's tpc_finish raises
+            else:
+                ops.append(['failcommit', rng.choice(['begin', 'commit', 'commit', 'vote', 'vote']),
+                            rng.choice([0, 0, 1])])
             end_txn(False)
         elif r < 0.91:
             # raw fault (OSError) at the k-th mutating file operation of the commit; may or may not fail it
@@ -351,7 +355,7 @@ def run_case(case, root):
                                 'file %r of a revision removed by pack is still there' % (k,))
                         elif after.startswith('failcommit') or after in ('abort', 'conflict', 'undo-failed', 'c1abort'):
                             sig = 'C13:abort-before-vote-leaves-blob'
-                            if after in ('failcommit-vote-0',):
+                            if after in ('failcommit-vote-0', 'failcommit-finish'):
                                 sig = 'C13:abort-after-vote-leaves-blob'
                             bad(sig, 'blob file %r of the failed/aborted transaction is left in the blob '
                                 'directory (after %s)' % (k, after))
@@ -711,6 +715,26 @@ def run_case(case, root):
                             nontrivial[0] = True              # fails after storeBlob
                         aborted()
                         boundary('failcommit-%s-%d' % (op[1], op[2]))
+                    elif kind == 'failfinish':
+                        if flavor != 'wrap':
+                            cnt('skip')
+                            continue
+                        stored_blob = bool(V['dirty'] | V['created'])
+                        env.fail_next_finish()
+                        try:
+                            tm0.commit()
+                            cnt('failfinish:nothing-to-commit')
+                        except FinishBoom:
+                            if stored_blob:
+                                nontrivial[0] = True          # fails after storeBlob (finish phase)
+                        except Exception as e:
+                            cnt('failfinish:' + errname(e))
+                        finally:
+                            env.clear_finish_failure()
+                        tm0.abort()
+                        F0.clear()
+                        aborted()
+                        boundary('failcommit-finish')
                     elif kind == 'faultcommit':
                         stored_blob = bool(V['dirty'] | V['created'])
                         mine = {u64(objs[s2]._p_oid) for s2 in V['dirty'] if s2 in objs and objs[s2]._p_oid}
